@@ -40,7 +40,8 @@ theorem arr_grow (n c : Nat) :
 theorem getFree_spec (a : Arena V) (hcap : 0 < a.cap) (hfree : ∀ x ∈ a.unused.toList, x < a.nodes.size) :
     ∃ i a1, a.getFree = some (i, a1) ∧ (poolOf a).alloc = (i, poolOf a1) ∧
       (∀ j, j < a.nodes.size → a1.node j = a.node j) ∧ a1.root = a.root ∧ a1.dflt = a.dflt ∧
-      i < a1.nodes.size ∧ a.nodes.size ≤ a1.nodes.size ∧ a1.nodes.size ≤ a.nodes.size + a.cap := by
+      i < a1.nodes.size ∧ a.nodes.size ≤ a1.nodes.size ∧ a1.nodes.size ≤ a.nodes.size + a.cap ∧
+      (∀ j, a.nodes.size ≤ j → j < a1.nodes.size → ∃ n, a1.node j = some n ∧ n.parent = 0) := by
   by_cases hemp : a.unused.isEmpty = true
   · -- grow by `cap` slots
     have hu : a.unused = #[] := by simpa using hemp
@@ -49,7 +50,7 @@ theorem getFree_spec (a : Arena V) (hcap : 0 < a.cap) (hfree : ∀ x ∈ a.unuse
     have hres : (a.reserve a.cap).unused = ((List.range (c+1)).reverse.map (· + a.nodes.size)).toArray := by
       simp [Arena.reserve, hu, hc]
     obtain ⟨hb, hp⟩ := arr_grow a.nodes.size c
-    refine ⟨a.nodes.size, { (a.reserve a.cap) with unused := (a.reserve a.cap).unused.pop }, ?_, ?_, ?_, rfl, rfl, ?_, ?_, ?_⟩
+    refine ⟨a.nodes.size, { (a.reserve a.cap) with unused := (a.reserve a.cap).unused.pop }, ?_, ?_, ?_, rfl, rfl, ?_, ?_, ?_, ?_⟩
     · simp only [Arena.getFree, hemp, if_true, hres, hb]
     · have h1 : (poolOf a).alloc = (a.nodes.size,
           Pool.mk (a.nodes.size + a.cap) (((List.range a.cap).drop 1).map (· + a.nodes.size)) a.cap) := by
@@ -64,13 +65,21 @@ theorem getFree_spec (a : Arena V) (hcap : 0 < a.cap) (hfree : ∀ x ∈ a.unuse
     · simp [Arena.reserve]; omega
     · simp [Arena.reserve]
     · simp [Arena.reserve]
+    · intro j hj1 hj2
+      have hj2' : j < a.nodes.size + a.cap := by simpa [Arena.reserve] using hj2
+      refine ⟨⟨0, 0, 0, true, a.dflt⟩, ?_, rfl⟩
+      simp only [Arena.node, Arena.reserve]
+      rw [Array.getElem?_append_right hj1]
+      have : j - a.nodes.size < a.cap := by omega
+      simp [this]
   · have hne : a.unused.isEmpty = false := by simpa using hemp
     have hsz : 0 < a.unused.size := by
       rcases Nat.eq_zero_or_pos a.unused.size with h | h
       · exact absurd (by simpa using h) hemp
       · exact h
     obtain ⟨hb, hp⟩ := arr_back_pop a.unused hsz
-    refine ⟨a.unused[a.unused.size - 1], { a with unused := a.unused.pop }, ?_, ?_, fun _ _ => rfl, rfl, rfl, ?_, Nat.le_refl _, by simp⟩
+    refine ⟨a.unused[a.unused.size - 1], { a with unused := a.unused.pop }, ?_, ?_, fun _ _ => rfl, rfl, rfl, ?_, Nat.le_refl _, by simp,
+      fun j h1 h2 => absurd h2 (by simp; omega)⟩
     · simp only [Arena.getFree, hne, Bool.false_eq_true, if_false, hb]
     · simp only [poolOf, Pool.alloc, hp]
     · exact hfree _ (by simp)
@@ -92,7 +101,8 @@ theorem linkNew_rep {a3 : Arena V} {f : Frame (Ent V)} {k : Ctx (Ent V)} {i : Na
     (hnf : a3.node f.s = some nf) :
     ∃ a', (if nf.red then Arena.fixInsert (a3.nodes.size + 1) a3 i f.s else some a3) = some a' ∧
       Rep a' a'.root EMPTY (linkNew (f :: k) i e) ∧ poolOf a' = poolOf a3 ∧
-      a'.nodes.size = a3.nodes.size ∧ a'.dflt = a3.dflt := by
+      a'.nodes.size = a3.nodes.size ∧ a'.dflt = a3.dflt ∧
+      (∀ j, j ∉ i :: ctxSlots (f :: k) → a'.node j = a3.node j) := by
   have hctx0 := hctx3
   obtain ⟨_, nf', hnf', hfr, _⟩ := hctx0
   rw [hnf] at hnf'
@@ -104,9 +114,9 @@ theorem linkNew_rep {a3 : Arena V} {f : Frame (Ent V)} {k : Ctx (Ent V)} {i : Na
       nodup_lt_length _ _ (List.nodup_cons.mp hnd3).2 hctx3.slots_lt
     have hk := ctxSlots_length (f :: k)
     simp only [List.length_cons] at hk
-    obtain ⟨a', h1, h2, _, h4, h5, h6, h7⟩ := fixInsert_rep (a3.nodes.size + 1) a3 k f _ i hsize3 (by omega)
+    obtain ⟨a', h1, h2, hfr3, h4, h5, h6, h7⟩ := fixInsert_rep (a3.nodes.size + 1) a3 k f _ i hsize3 (by omega)
       hctx3 hn3 (by simp) hred (by simpa [T.slots_node] using hnd3)
-    refine ⟨a', h1, ?_, by simp [poolOf, h4, h5, h7], h7, h6⟩
+    refine ⟨a', h1, ?_, by simp [poolOf, h4, h5, h7], h7, h6, fun j hj => hfr3 j (by simpa [T.slots_node] using hj)⟩
     simp only [linkNew, hred, beq_self_eq_true, if_true]
     exact h2
   · have hr : nf.red = false := by
@@ -115,7 +125,7 @@ theorem linkNew_rep {a3 : Arena V} {f : Frame (Ent V)} {k : Ctx (Ent V)} {i : Na
       · rfl
     have hb : (f.c == Color.red) = false := by cases hc : f.c <;> simp_all
     simp only [hr, Bool.false_eq_true, if_false]
-    refine ⟨a3, rfl, ?_, rfl, rfl, rfl⟩
+    refine ⟨a3, rfl, ?_, rfl, rfl, rfl, fun _ _ => rfl⟩
     simp only [linkNew, hb, Bool.false_eq_true, if_false]
     exact Rep.plug hctx3 hn3
 
@@ -127,8 +137,10 @@ theorem insertAs_rep {a : Arena V} {f : Frame (Ent V)} {k : Ctx (Ent V)} (e : En
     (hfresh : (poolOf a).alloc.1 ∉ ctxSlots (f :: k)) :
     ∃ a', a.insertAs e f.s (f.side == Side.L) = some a' ∧
       Rep a' a'.root EMPTY (linkNew (f :: k) (poolOf a).alloc.1 e) ∧
-      poolOf a' = (poolOf a).alloc.2 ∧ a'.nodes.size ≤ EMPTY ∧ a'.dflt = a.dflt := by
-  obtain ⟨i, a1, hgf, halloc, hold, hroot1, hd1, hi1, hsz1, hsz1'⟩ := getFree_spec a hcap hfree
+      poolOf a' = (poolOf a).alloc.2 ∧ a'.nodes.size ≤ EMPTY ∧ a'.dflt = a.dflt ∧
+      (∀ j, j ∉ (poolOf a).alloc.1 :: ctxSlots (f :: k) → (j < a.nodes.size → a'.node j = a.node j) ∧
+        (a.nodes.size ≤ j → j < a'.nodes.size → ∃ n, a'.node j = some n ∧ n.parent = 0)) := by
+  obtain ⟨i, a1, hgf, halloc, hold, hroot1, hd1, hi1, hsz1, hsz1', hnew1⟩ := getFree_spec a hcap hfree
   rw [halloc] at hfresh ⊢
   simp only at hfresh ⊢
   have hlt : ∀ s ∈ ctxSlots (f :: k), s < a.nodes.size := hctx.slots_lt
@@ -177,9 +189,17 @@ theorem insertAs_rep {a : Arena V} {f : Frame (Ent V)} {k : Ctx (Ent V)} (e : En
       rw [this]
       simp only [Option.bind_some, a3, a2]
     rw [hcode]
-    obtain ⟨a', h1, h2, h3, h4, h5⟩ := linkNew_rep (e := e) (by simp [a3, a2]; omega) hctx3 hn3
+    obtain ⟨a', h1, h2, h3, h4, h5, h6⟩ := linkNew_rep (e := e) (by simp [a3, a2]; omega) hctx3 hn3
       (List.nodup_cons.mpr ⟨hfresh, hnd⟩) h3f
-    exact ⟨a', h1, h2, by rw [h3]; simp [poolOf, a3, a2], by rw [h4]; simp [a3, a2]; omega, by rw [h5]; simp [a3, a2, hd1]⟩
+    refine ⟨a', h1, h2, by rw [h3]; simp [poolOf, a3, a2], by rw [h4]; simp [a3, a2]; omega, by rw [h5]; simp [a3, a2, hd1], ?_⟩
+    intro j hj
+    have hji : j ≠ i := fun h => hj (by simp [h])
+    have hjf : j ≠ f.s := fun h => hj (by simp [ctxSlots, h])
+    have e3 : a'.node j = a1.node j := by
+      rw [h6 j hj]; simp [a3, a2, Ne.symm hji, Ne.symm hjf]
+    refine ⟨fun hjlt => by rw [e3, hold j hjlt], fun h1 h2 => ?_⟩
+    rw [e3]
+    exact hnew1 j h1 (by rw [h4] at h2; simpa [a3, a2] using h2)
   | R =>
     simp only [hside] at hfside
     let a3 := a2.upd f.s fun n => { n with right := i }
@@ -204,9 +224,17 @@ theorem insertAs_rep {a : Arena V} {f : Frame (Ent V)} {k : Ctx (Ent V)} (e : En
       rw [this]
       simp only [Option.bind_some, a3, a2]
     rw [hcode]
-    obtain ⟨a', h1, h2, h3, h4, h5⟩ := linkNew_rep (e := e) (by simp [a3, a2]; omega) hctx3 hn3
+    obtain ⟨a', h1, h2, h3, h4, h5, h6⟩ := linkNew_rep (e := e) (by simp [a3, a2]; omega) hctx3 hn3
       (List.nodup_cons.mpr ⟨hfresh, hnd⟩) h3f
-    exact ⟨a', h1, h2, by rw [h3]; simp [poolOf, a3, a2], by rw [h4]; simp [a3, a2]; omega, by rw [h5]; simp [a3, a2, hd1]⟩
+    refine ⟨a', h1, h2, by rw [h3]; simp [poolOf, a3, a2], by rw [h4]; simp [a3, a2]; omega, by rw [h5]; simp [a3, a2, hd1], ?_⟩
+    intro j hj
+    have hji : j ≠ i := fun h => hj (by simp [h])
+    have hjf : j ≠ f.s := fun h => hj (by simp [ctxSlots, h])
+    have e3 : a'.node j = a1.node j := by
+      rw [h6 j hj]; simp [a3, a2, Ne.symm hji, Ne.symm hjf]
+    refine ⟨fun hjlt => by rw [e3, hold j hjlt], fun h1 h2 => ?_⟩
+    rw [e3]
+    exact hnew1 j h1 (by rw [h4] at h2; simpa [a3, a2] using h2)
 
 end ITree
 
@@ -221,7 +249,9 @@ theorem insertLoop_rep (e : Ent V) : ∀ (fuel : Nat) (a : Arena V) (k : Ctx (En
     (poolOf a).alloc.1 ∉ t.slots ++ ctxSlots k →
     ∃ a', Arena.insertLoop fuel a e idx = some a' ∧
       Rep a' a'.root EMPTY (linkNew (descendIns e.key k t) (poolOf a).alloc.1 e) ∧
-      poolOf a' = (poolOf a).alloc.2 ∧ a'.nodes.size ≤ EMPTY ∧ a'.dflt = a.dflt := by
+      poolOf a' = (poolOf a).alloc.2 ∧ a'.nodes.size ≤ EMPTY ∧ a'.dflt = a.dflt ∧
+      (∀ j, j ∉ (poolOf a).alloc.1 :: (t.slots ++ ctxSlots k) → (j < a.nodes.size → a'.node j = a.node j) ∧
+        (a.nodes.size ≤ j → j < a'.nodes.size → ∃ n, a'.node j = some n ∧ n.parent = 0)) := by
   intro fuel
   induction fuel with
   | zero => intro a k t idx p _ _ _ h; omega
@@ -242,7 +272,9 @@ theorem insertLoop_rep (e : Ent V) : ∀ (fuel : Nat) (a : Arena V) (k : Ctx (En
         simp only [hle, beq_self_eq_true, if_true, descendIns]
         have hctx' : RepCtx a ((⟨c, idx, ent, r, .L⟩ : Frame (Ent V)) :: k) EMPTY idx :=
           ⟨rfl, ns, hns, hnr, hne, ⟨hle, hr⟩, hnp ▸ hctx⟩
-        exact insertAs_rep (f := ⟨c, idx, ent, r, .L⟩) e hsize hcap hfree hctx' (by slots_tac hnd) (by slots_tac hfresh)
+        obtain ⟨a', h1, h2, h3, h4, h5, h6⟩ := insertAs_rep (f := ⟨c, idx, ent, r, .L⟩) e hsize hcap hfree hctx'
+          (by slots_tac hnd) (by slots_tac hfresh)
+        exact ⟨a', h1, h2, h3, h4, h5, fun j hj => h6 j (by slots_tac hj)⟩
       | node cl ll sl el rl =>
         have hl0 := hl
         obtain ⟨hli, nl, hnl', _⟩ := hl0
@@ -251,8 +283,9 @@ theorem insertLoop_rep (e : Ent V) : ∀ (fuel : Nat) (a : Arena V) (k : Ctx (En
         simp only [hne', Bool.false_eq_true, if_false]
         have hctx' : RepCtx a ((⟨c, idx, ent, r, .L⟩ : Frame (Ent V)) :: k) ns.left idx :=
           ⟨rfl, ns, hns, hnr, hne, ⟨rfl, hr⟩, hnp ▸ hctx⟩
-        exact ih a _ _ ns.left idx hsize hcap hfree (by simp only [T.height] at hfuel ⊢; omega) (by simp) hctx' hl
-          (by slots_tac hnd) (by slots_tac hfresh)
+        obtain ⟨a', h1, h2, h3, h4, h5, h6⟩ := ih a _ _ ns.left idx hsize hcap hfree
+          (by simp only [T.height] at hfuel ⊢; omega) (by simp) hctx' hl (by slots_tac hnd) (by slots_tac hfresh)
+        exact ⟨a', h1, h2, h3, h4, h5, fun j hj => h6 j (by slots_tac hj)⟩
     · have hlt' : ¬ e.key < ns.ent.key := by rw [hne]; exact hlt
       simp only [Arena.insertLoop, hns, Option.bind_eq_bind, Option.bind_some, hlt', if_false, descendIns, hlt]
       cases r with
@@ -261,7 +294,9 @@ theorem insertLoop_rep (e : Ent V) : ∀ (fuel : Nat) (a : Arena V) (k : Ctx (En
         simp only [hre, beq_self_eq_true, if_true, descendIns]
         have hctx' : RepCtx a ((⟨c, idx, ent, l, .R⟩ : Frame (Ent V)) :: k) EMPTY idx :=
           ⟨rfl, ns, hns, hnr, hne, ⟨hre, hl⟩, hnp ▸ hctx⟩
-        exact insertAs_rep (f := ⟨c, idx, ent, l, .R⟩) e hsize hcap hfree hctx' (by slots_tac hnd) (by slots_tac hfresh)
+        obtain ⟨a', h1, h2, h3, h4, h5, h6⟩ := insertAs_rep (f := ⟨c, idx, ent, l, .R⟩) e hsize hcap hfree hctx'
+          (by slots_tac hnd) (by slots_tac hfresh)
+        exact ⟨a', h1, h2, h3, h4, h5, fun j hj => h6 j (by slots_tac hj)⟩
       | node cr lr sr er rr =>
         have hr0 := hr
         obtain ⟨hri, nr, hnr', _⟩ := hr0
@@ -270,8 +305,9 @@ theorem insertLoop_rep (e : Ent V) : ∀ (fuel : Nat) (a : Arena V) (k : Ctx (En
         simp only [hne', Bool.false_eq_true, if_false]
         have hctx' : RepCtx a ((⟨c, idx, ent, l, .R⟩ : Frame (Ent V)) :: k) ns.right idx :=
           ⟨rfl, ns, hns, hnr, hne, ⟨rfl, hl⟩, hnp ▸ hctx⟩
-        exact ih a _ _ ns.right idx hsize hcap hfree (by simp only [T.height] at hfuel ⊢; omega) (by simp) hctx' hr
-          (by slots_tac hnd) (by slots_tac hfresh)
+        obtain ⟨a', h1, h2, h3, h4, h5, h6⟩ := ih a _ _ ns.right idx hsize hcap hfree
+          (by simp only [T.height] at hfuel ⊢; omega) (by simp) hctx' hr (by slots_tac hnd) (by slots_tac hfresh)
+        exact ⟨a', h1, h2, h3, h4, h5, fun j hj => h6 j (by slots_tac hj)⟩
 
 end ITree
 
@@ -307,17 +343,21 @@ theorem SlotsOK.arena {a : Arena V} {st : St V} (h : RepSt a st) (hs : SlotsOK s
 /-- **`insert` of the arena-level model refines `St.insert`** and stays inside the arena -/
 theorem insert_rep {a : Arena V} {st : St V} (e : Ent V) (h : RepSt a st) (hs : SlotsOK st.tree st.pool)
     (hsize : a.nodes.size + a.cap ≤ EMPTY) :
-    ∃ a', a.insert e = some a' ∧ RepSt a' (st.insert e) ∧ a'.nodes.size ≤ EMPTY ∧ a'.dflt = a.dflt := by
+    ∃ a', a.insert e = some a' ∧ RepSt a' (st.insert e) ∧ a'.nodes.size ≤ EMPTY ∧ a'.dflt = a.dflt ∧
+      a.nodes.size ≤ a'.nodes.size ∧
+      (∀ j, j ∉ (poolOf a).alloc.1 :: st.tree.slots → (j < a.nodes.size → a'.node j = a.node j) ∧
+        (a.nodes.size ≤ j → j < a'.nodes.size → ∃ n, a'.node j = some n ∧ n.parent = 0)) := by
   obtain ⟨hcap, hfree, hnd, hlt, hfresh⟩ := SlotsOK.arena h hs
   have hpool := h.pool
   simp only [St.insert, hpool]
   cases ht : st.tree with
   | leaf =>
     have hroot : a.root = EMPTY := by have := h.tree; rw [ht] at this; exact this
-    obtain ⟨i, a1, hgf, halloc, hold, hroot1, hd1, hi1, hsz1, hsz1'⟩ := getFree_spec a hcap hfree
+    obtain ⟨i, a1, hgf, halloc, hold, hroot1, hd1, hi1, hsz1, hsz1', hnew1⟩ := getFree_spec a hcap hfree
     rw [halloc]
     simp only [descendIns, linkNew]
-    refine ⟨{ (a1.upd i fun _ => (⟨EMPTY, EMPTY, EMPTY, false, e⟩ : ANode V)) with root := i }, ?_, ⟨?_, ?_⟩, ?_, ?_⟩
+    refine ⟨{ (a1.upd i fun _ => (⟨EMPTY, EMPTY, EMPTY, false, e⟩ : ANode V)) with root := i }, ?_, ⟨?_, ?_⟩, ?_, ?_,
+      by simpa using hsz1, ?_⟩
     · simp only [Arena.insert, hroot, beq_self_eq_true, if_true, Arena.insertRoot, Arena.insertNew, hgf,
         Option.bind_eq_bind, Option.bind_some, Option.pure_def]
       rw [Arena.modify_eq_upd _ hi1]
@@ -331,6 +371,15 @@ theorem insert_rep {a : Arena V} {st : St V} (e : Ent V) (h : RepSt a st) (hs : 
     · simp [poolOf]
     · simp; omega
     · simp [hd1]
+    · intro j hj
+      have hji : j ≠ i := fun h => hj (by simp [h])
+      have e3 : ({ (a1.upd i fun _ => (⟨EMPTY, EMPTY, EMPTY, false, e⟩ : ANode V)) with root := i } : Arena V).node j =
+          a1.node j := by
+        show (a1.upd i _).node j = _
+        simp [Ne.symm hji]
+      refine ⟨fun hjlt => by rw [e3, hold j hjlt], fun h1 h2 => ?_⟩
+      rw [e3]
+      exact hnew1 j h1 (by simpa using h2)
   | node c l s ent r =>
     have htree := h.tree
     rw [ht] at htree hnd hlt hfresh
@@ -341,9 +390,15 @@ theorem insert_rep {a : Arena V} {st : St V} (e : Ent V) (h : RepSt a st) (hs : 
       have h1 := T.height_le_slots (T.node c l s ent r)
       have h2 := nodup_lt_length _ _ hnd hlt
       omega
-    obtain ⟨a', h1, h2, h3, h4, h5⟩ := insertLoop_rep e (a.nodes.size + 1) a [] (T.node c l s ent r) a.root EMPTY
+    obtain ⟨a', h1, h2, h3, h4, h5, h6⟩ := insertLoop_rep e (a.nodes.size + 1) a [] (T.node c l s ent r) a.root EMPTY
       hsize hcap hfree hh (by simp) ⟨rfl, rfl⟩ htree (by simpa [ctxSlots] using hnd) (by simpa [ctxSlots] using hfresh)
-    refine ⟨a', ?_, ⟨?_, ?_⟩, h4, h5⟩
+    have hgrow : a.nodes.size ≤ a'.nodes.size := by
+      have e1 : (poolOf a').bufLen = a'.nodes.size := rfl
+      have e2 : (poolOf a).bufLen = a.nodes.size := rfl
+      have := (Pool.alloc_spec hs).2.2.2.2.2
+      rw [h.pool] at this
+      rw [h3] at e1; omega
+    refine ⟨a', ?_, ⟨?_, ?_⟩, h4, h5, hgrow, fun j hj => h6 j (by simpa [ctxSlots] using hj)⟩
     · simp only [Arena.insert, hrne, Bool.false_eq_true, if_false]; exact h1
     · exact h2
     · exact h3.symm
